@@ -138,6 +138,206 @@ def first_difference(a, b):
     return n
 
 
+# ---------------------------------------------------------------------------
+# histories: an --output-dir is rarely empty.  The directory may hold files of the same names from an earlier run (the same
+# document converted again after a picture was replaced by a smaller / larger one or by one of another type, or another
+# document converted into the same directory), files somebody else put there (longer, shorter, of equal length; an N.<subtype>
+# that is a symbolic link; names the run does not write at all, a sub-directory).  After every run the WHOLE directory is
+# compared byte by byte with: what was there before, overlaid with <stem>.html = the value and k.<subtype> = the k-th picture.
+# ---------------------------------------------------------------------------
+
+def filler(length, salt):
+    """`length` bytes that are recognisably not a picture of the generators (recreated by the replay from (length, salt))"""
+    block = bytes((salt * 37 + 11 * j) % 251 for j in range(251))
+    return (block * (length // 251 + 1))[:length]
+
+
+def snapshot(dirpath):
+    """{relative name: bytes} of every file below dirpath (symbolic links are read through, as any reader of the directory would)"""
+    state = {}
+    for dp, _dns, fns in os.walk(dirpath):
+        for fn in fns:
+            full = os.path.join(dp, fn)
+            try:
+                with open(full, "rb") as f:
+                    state[os.path.relpath(full, dirpath)] = f.read()
+            except OSError:
+                state[os.path.relpath(full, dirpath)] = None        # a dangling link
+    return state
+
+
+def prepopulate(hrng, outdir, stem, imgs):
+    """files in the output directory before the run; -> [[name, length, salt]] (what the replay needs to recreate them)"""
+    made = []
+
+    def put(fn, length, link=False):
+        salt = hrng.randrange(1000)
+        full = os.path.join(outdir, fn)
+        os.makedirs(os.path.dirname(full), exist_ok=True)
+        if link:
+            # N.<subtype> is a symbolic link to a file next to the output directory
+            real = os.path.join(os.path.dirname(outdir), "linked-%s.bin" % fn)
+            with open(real, "wb") as f:
+                f.write(filler(length, salt))
+            if not os.path.lexists(full):
+                os.symlink(real, full)
+        else:
+            with open(full, "wb") as f:
+                f.write(filler(length, salt))
+        made.append([fn, length, salt] + (["symlink"] if link else []))
+
+    for k, im in enumerate(imgs):
+        size = len(im["bytes"])
+        sub = (im["ct"] or "image/png").partition("/")[2]
+        rel = hrng.choice(["longer", "longer", "longer", "shorter", "equal", "absent", "other-type"])
+        if rel == "longer":
+            put("%d.%s" % (k + 1, sub), size + hrng.choice([1, 2, 7, 100, size + 13, 70000]), link=hrng.random() < 0.12)
+        elif rel == "shorter":
+            put("%d.%s" % (k + 1, sub), hrng.randrange(0, size) if size else 0)
+        elif rel == "equal":
+            put("%d.%s" % (k + 1, sub), size)
+        elif rel == "other-type":
+            put("%d.%s" % (k + 1, hrng.choice(["png", "gif", "jpeg", "x-emf", "svg", "PNG", "png~"])), size + 5)
+    if hrng.random() < 0.7:
+        put(stem + ".html", hrng.choice([0, 9, 5000, 600000, 600000]))
+    for fn in ["0.png", "%d.png" % (len(imgs) + 1), "notes.txt", "sub/1.png", stem + ".htm", stem + ".html.bak", "1", ".png"]:
+        if hrng.random() < 0.25:
+            put(fn, hrng.choice([0, 3, 1000]))
+    return made
+
+
+def picture_files(seen):
+    """{file name: bytes} for the pictures handed to the image converter, in order, as (content type, bytes | None)"""
+    written, number = {}, 1
+    for ct, b in seen:
+        # a picture that cannot be opened (b is None: a linked picture whose target is missing) has its file created all the same,
+        # empty, and does not use up the number: the next picture gets the same number (and the same file, if of the same type)
+        written["%d.%s" % (number, ct.partition("/")[2])] = b if b is not None else b""
+        number += b is not None
+    return written
+
+
+def history_problems(before, after, stem, want_html, seen):
+    """the whole directory after the run against: the directory before, overlaid with the files the statement names"""
+    written = picture_files(seen)
+    written[stem + ".html"] = want_html
+    exp = dict(before)
+    exp.update(written)
+    probs = []
+    for fn in sorted(set(exp) | set(after)):
+        if fn not in after:
+            probs.append("%s is not in the output directory after the run" % fn)
+        elif fn not in exp:
+            probs.append("the run left a file %s that is neither the HTML file nor one of the %d pictures (nor was it there before)" % (fn, len([1 for _ct, b in seen if b is not None])))
+        elif after[fn] != exp[fn]:
+            got, want = after[fn] or b"", exp[fn] or b""
+            if fn not in written:
+                probs.append("%s was in the output directory before the run and is none of the files the run writes, but its content changed (%d -> %d bytes)" % (fn, len(before[fn] or b""), len(got)))
+            else:
+                probs.append("%s does not hold exactly %s: %d bytes on disk, expected %d; first difference at byte %d%s" % (
+                    fn, "the library's value" if fn == stem + ".html" else "the picture's bytes", len(got), len(want), first_difference(got, want),
+                    "; before the run a file of %d bytes had that name" % len(before[fn] or b"") if fn in before else ""))
+    return probs
+
+
+def revise_pictures(hrng, parts):
+    """the document after somebody edited it: every picture part may have been replaced by a shorter one, a longer one, one of
+    equal length, or by a picture of another type (-> another file name for the same number)"""
+    import copy
+    from gen_docx import el as _el
+    parts = copy.deepcopy(parts)
+    types = [p_ for p_ in parts if p_["name"] == "[Content_Types].xml"]
+    did = []
+    for p_ in parts:
+        if not (p_["name"].startswith("word/media/") and "hex" in p_):
+            continue
+        data = bytes.fromhex(p_["hex"])
+        op = hrng.choice(["shrink", "shrink", "shrink", "grow", "same-length", "retype", "keep"])
+        if op == "shrink" and data:
+            data = data[:hrng.choice([0, 1, len(data) // 2, len(data) - 1])]
+        elif op in ("grow", "shrink"):
+            data = data + filler(hrng.choice([1, 50, 9000]), len(data))
+        elif op == "same-length":
+            data = bytes((b + 1) % 256 for b in data)
+        elif op == "retype" and types:
+            ct = hrng.choice(["image/png", "image/gif", "image/jpeg", "image/tiff", "image/bmp", "image/svg+xml"])
+            types[0]["xml"][2].append(_el("content-types:Override", [("PartName", "/" + p_["name"]), ("ContentType", ct)]))
+        did.append(op)
+        p_["hex"] = data.hex()
+    return parts, did
+
+
+def preexisting_record(before):
+    """the files of the directory before the run, for the replay file (content in hex when small)"""
+    total = sum(len(b or b"") for b in before.values())
+    return [[fn, len(b or b""), (b or b"").hex() if total < 60000 else None] for fn, b in sorted(before.items())]
+
+
+def library_dir_result(mammoth, inpath, sm_text, fmt):
+    """what the library returns for the file with an image converter that names the pictures as the statement says;
+    -> value, messages, [(content type, bytes | None when the picture could not be opened)] in call order"""
+    seen = []
+
+    def conv(image):
+        try:
+            with image.open() as fh:
+                b = fh.read()
+        except Exception:
+            seen.append((image.content_type, None))
+            raise
+        seen.append((image.content_type, b))
+        return {"src": "%d.%s" % (len([1 for _ct, x in seen if x is not None]), image.content_type.partition("/")[2])}
+    with open(inpath, "rb") as f:
+        lib = mammoth.convert(f, style_map=sm_text, output_format=fmt, convert_image=mammoth.images.img_element(conv))
+    return lib.value, [m.message for m in lib.messages], seen
+
+
+def followup_runs(out, mammoth, hrng, ctx, lines, meta, hist):
+    """the same command again, once or twice, after the document's pictures were revised - same input name, same --output-dir"""
+    parts = ctx["parts"]
+    for step in range(1, hrng.choice([1, 1, 2]) + 1):
+        parts, did = revise_pictures(hrng, parts)
+        data = D.build_docx(parts)
+        with open(ctx["inpath"], "wb") as f:
+            f.write(data)
+        try:
+            lib_value, lib_msgs, seen = library_dir_result(mammoth, ctx["inpath"], ctx["sm_text"], ctx["fmt"])
+        except Exception:  # noqa  (a revision the library itself cannot convert, e.g. a type without a subtype: not a history of interest)
+            return
+        before = snapshot(ctx["outdir"])
+        p = run_cli(ctx["args"], ctx["d"])
+        after = snapshot(ctx["outdir"])
+        stem = os.path.splitext(ctx["name"])[0]
+        case_rec = {"kind": "cli", "args": [a.replace(ctx["d"], "<dir>") for a in ctx["args"]], "style_map": ctx["sm"], "docx_hex": data.hex() if len(data) < 40000 else None, "name": ctx["name"],
+                    "preexisting": preexisting_record(before), "history": {"step": step, "revision": did,
+                                                                          "note": "run %d of the same command into the same --output-dir; `preexisting` is the directory as the earlier runs left it" % (step + 1)}}
+        calls, seen = seen, [(ct, b) for ct, b in seen if b is not None]
+        out.count(key="cli-%s-again%d" % (ctx["key"], step), nontrivial=bool(seen))
+        out.extra["c20_histories"] = out.extra.get("c20_histories", 0) + 1
+        probs = []
+        if p.returncode != 0:
+            probs.append("the command exited with status %d: %s" % (p.returncode, p.stderr.decode("utf-8", "replace")[-300:]))
+        else:
+            probs += history_problems(before, after, stem, lib_value.encode("utf-8"), calls)
+            if p.stdout:
+                probs.append("something was written to standard output although an output directory was given")
+            if p.stderr.decode("utf-8") != "".join(m + "\n" for m in lib_msgs):
+                probs.append("standard error is not the library's messages, one per line")
+        if probs:
+            out.violation("; ".join(probs[:3]), case_rec, expected={"value": lib_value[:300], "messages": lib_msgs[:5], "files": sorted(set(before) | {stem + ".html"})},
+                          actual={"files": sorted(after), "stderr": p.stderr.decode("utf-8", "replace")[:300]})
+        if p.returncode != 0:
+            return
+        if picture_files(calls) != picture_files(seen):
+            continue        # an unopenable picture left its empty file behind: outside cliRun (all pictures open), judged above only
+        lines.append({"op": "cli", "path": ctx["inpath"], "output": None, "outputDir": ctx["outdir"], "format": ctx["fmt"], "styleMap": ctx["sm_text"], "value": lib_value, "messages": lib_msgs,
+                      "images": [[ct, b.hex()] for ct, b in seen]})
+        meta.append((case_rec, p, "dir", ctx["outdir"], None))
+        hist[id(case_rec)] = (before, after)
+        if p.returncode != 0:
+            return
+
+
 def run(out, tier, seed, model_ok):
     import mammoth
     rng = random.Random(seed * 7919 + 20)
@@ -146,9 +346,11 @@ def run(out, tier, seed, model_ok):
     os.makedirs(base)
     n = common.deepen(45 if tier == "quick" else 400)
     lines, meta = [], []
+    hist, prev_outdir = {}, [None]     # id(case record) -> (directory before the run, after the run); the --output-dir of the last such run
     for i in range(n):
         d = os.path.join(base, "c%d" % i)
         os.makedirs(d)
+        hrng = random.Random(seed * 7919 + 2007 + 31 * i)      # the history of the output directory: its own stream, the cases stay what they were
         mode = rng.choice(["stdout", "path", "dir", "dir"])
         bulk = bulk_plan(rng) if rng.random() < 0.3 else None
         if bulk and rng.random() < 0.5:
@@ -219,6 +421,13 @@ def run(out, tier, seed, model_ok):
         elif mode == "dir":
             outdir = os.path.join(d, "outdir")
             os.makedirs(outdir)
+            if prev_outdir[0] is not None and hrng.random() < 0.4:
+                outdir = prev_outdir[0]         # the directory an earlier run (of another document, or of one of the same name) wrote into
+                out.extra["c20_reused_dirs"] = out.extra.get("c20_reused_dirs", 0) + 1
+            elif hrng.random() < 0.65:
+                prepopulate(hrng, outdir, os.path.splitext(name)[0], imgs)
+                out.extra["c20_prepopulated"] = out.extra.get("c20_prepopulated", 0) + 1
+            prev_outdir[0] = outdir
             args.append("--output-dir=" + outdir)
         if fmt:
             args.append("--output-format=" + fmt)
@@ -229,7 +438,9 @@ def run(out, tier, seed, model_ok):
             args.append("--style-map=" + smpath)
         if bulk and bulk["align"] and mode != "dir":
             data = bulk_align(mammoth, bulk, parts, pad_text, inpath, os.path.join(d, "style.map") if sm is not None else None, fmt) or data
+        before = snapshot(outdir) if mode == "dir" else {}
         p = run_cli(args, d)
+        after = snapshot(outdir) if mode == "dir" else {}
         # what the library returns for the same file, style-map file and output format
         sm_text = None
         if sm is not None:
@@ -249,6 +460,10 @@ def run(out, tier, seed, model_ok):
             lib = mammoth.convert(f, **kw)
         lib_value, lib_msgs = lib.value, [m.message for m in lib.messages]
         case_rec = {"kind": "cli", "args": [a.replace(d, "<dir>") for a in args], "style_map": sm, "docx_hex": data.hex() if len(data) < 40000 else None, "name": name}
+        if before:
+            case_rec["preexisting"] = preexisting_record(before)
+        if mode == "dir":
+            hist[id(case_rec)] = (before, after)
         if bulk:
             if case_rec["docx_hex"] is None:
                 packed = D.build_docx(parts, compression="deflate")      # the same package, deflated, so that the replay file holds the document
@@ -289,8 +504,9 @@ def run(out, tier, seed, model_ok):
                     fp = os.path.join(outdir, fn)
                     if not os.path.exists(fp) or open(fp, "rb").read() != b:
                         probs.append("image file %s is missing or does not hold the image bytes" % fn)
-                if set(files) != exp_files:
-                    probs.append("files in the output directory: %r, expected %r" % (files, sorted(exp_files)))
+                if set(files) != exp_files | {fn.split(os.sep)[0] for fn in before}:
+                    probs.append("files in the output directory: %r, expected %r" % (files, sorted(exp_files | {fn.split(os.sep)[0] for fn in before})))
+                probs += history_problems(before, after, stem, want, seen)
                 if fmt != "markdown" and os.path.exists(html):
                     try:
                         srcs = [dict(nn[2]).get("src") for _c, nn in HO.walk(HO.parse(open(html, "rb").read().decode("utf-8"))) if nn[0] == "el" and nn[1] == "img"]
@@ -307,6 +523,8 @@ def run(out, tier, seed, model_ok):
         lines.append({"op": "cli", "path": inpath, "output": outpath, "outputDir": outdir, "format": fmt, "styleMap": sm_text, "value": lib_value, "messages": lib_msgs,
                       "images": [[ct, b.hex()] for ct, b in seen]})
         meta.append((case_rec, p, mode, outdir, outpath))
+        if mode == "dir" and seen and p.returncode == 0 and hrng.random() < 0.5:
+            followup_runs(out, mammoth, hrng, dict(parts=parts, inpath=inpath, d=d, name=name, args=args, fmt=fmt, sm=sm, sm_text=sm_text, outdir=outdir, key="%d-%d" % (seed, i)), lines, meta, hist)
     if model_ok:
         for (case_rec, p, mode, outdir, outpath), m in zip(meta, run_driver(lines, tag="cli")):
             if "error" in m:
@@ -315,7 +533,13 @@ def run(out, tier, seed, model_ok):
             if p.returncode != 0:
                 continue
             real_files = {}
-            if mode == "dir":
+            if mode == "dir" and id(case_rec) in hist:
+                # the files of the directory that the run created or changed, and those the specification says it writes
+                before, after = hist[id(case_rec)]
+                for fn, b in after.items():
+                    if before.get(fn, 0) != b or os.path.join(outdir, fn) in dict(m["files"]):
+                        real_files[os.path.join(outdir, fn)] = (b or b"").hex()
+            elif mode == "dir":
                 for fn in os.listdir(outdir):
                     real_files[os.path.join(outdir, fn)] = open(os.path.join(outdir, fn), "rb").read().hex()
             elif mode == "path" and os.path.exists(outpath):
@@ -329,7 +553,9 @@ def run(out, tier, seed, model_ok):
                 "{output path, stdout, --output-dir} x --output-format {absent, html, markdown} x --style-map present/absent (incl. form feed, U+2028, CRLF and "
                 "unreadable lines) x input names with no / several dots; observation: bytes written vs the UTF-8 of the value mammoth.convert returns in-process for the "
                 "same file, style-map text and format; stderr = messages one per line; --output-dir: <stem>.html plus k.<subtype> files with the exact image bytes, img src "
-                "in document order; all compared with the Lean cliRun model; non-trivial = --output-dir with images")
+                "in document order; all compared with the Lean cliRun model; non-trivial = --output-dir with images; output directories with a history (files of the same names, "
+                "longer / shorter / equal / symbolic links, unrelated files; the directory of an earlier run reused; the same command again after the pictures were revised): "
+                "the whole directory afterwards, byte by byte, = the directory before overlaid with the files the statement names")
     if meta:
         out.sample(meta[0][0]["args"])
         out.sample(meta[-1][0]["args"])
@@ -359,10 +585,20 @@ def replay(out, payload, model_ok):
     fmt = ([a.split("=", 1)[1] for a in args if a.startswith("--output-format=")] or [None])[0]
     outdir = ([a.split("=", 1)[1] for a in args if a.startswith("--output-dir=")] or [None])[0]
     outpath = args[1] if len(args) > 1 and not args[1].startswith("--") else None
+    # the output directory as it was before the recorded run (files of earlier runs, files somebody put there)
+    recreated = outdir is not None and all(hx is not None for _fn, _n, hx in case.get("preexisting") or [])
+    if recreated:
+        for fn, _n, hx in case.get("preexisting") or []:
+            os.makedirs(os.path.dirname(os.path.join(outdir, fn)), exist_ok=True)
+            with open(os.path.join(outdir, fn), "wb") as f:
+                f.write(bytes.fromhex(hx))
+    before = snapshot(outdir) if outdir else {}
     p = run_cli(args, d)
     seen = []
 
     def conv(image):
+        with image.open() as fh:      # as the command's writer does: a picture that cannot be opened yields a warning and no img
+            fh.read()
         seen.append(image.content_type)
         return {"src": "%d.%s" % (len(seen), image.content_type.partition("/")[2])}
     kw = dict(style_map=sm_text, output_format=fmt)
@@ -384,4 +620,11 @@ def replay(out, payload, model_ok):
         out.violation("the bytes written (%s) are not the UTF-8 encoding of the library's value (%d bytes)" % ("nothing" if got is None else "%d bytes" % len(got), len(want)), case)
     elif p.stderr.decode("utf-8") != "".join(m.message + "\n" for m in lib.messages):
         out.violation("standard error is not the library's messages, one per line", case)
+    elif outdir and recreated:
+        # every file of the directory, byte by byte
+        after = snapshot(outdir)
+        value2, _msgs2, calls = library_dir_result(mammoth, os.path.join(d, case["name"]), sm_text, fmt)
+        probs = history_problems(before, after, os.path.splitext(case["name"])[0], value2.encode("utf-8"), calls)
+        if probs:
+            out.violation("; ".join(probs[:3]), case)
     shutil.rmtree(d, ignore_errors=True)
